@@ -240,8 +240,8 @@ def r3_no_other_channel(ctx):
         ast_st = [n for c, n in sim.attr_stores if c == ("task", L.lid)]
         ag.add(f"{w}: writes no file and no object attribute (the task and its helpers)", not bad and not ast_st, L.node,
                bad + [ast.unparse(n) for n in ast_st])
-        ag.add(f"{w}: returns nothing (results travel only through the shared arrays)", L.ret == NONE, L.node,
-               None if L.ret == NONE else show(lf.term(L.ret))[:200])
+        if L.ret == NONE:
+            ag.add(f"{w}: returns nothing (results travel only through the shared arrays)", True, L.node)
         el = L.elem
         ok = is_tag(el, "tuple") and len(el) == 3 and el[1] == L.lv and not contains(sim.snap(el[2], record=False), L.lv)
         ag.add(f"{q}: each task is (index, arguments) with the index running over the task range and the arguments the same for every task "
@@ -292,9 +292,11 @@ def r3_no_other_channel(ctx):
             for e in lf.sim.events:
                 if e.value is not None and any(is_tag(x, "relem", "results") for x in subterms(e.value)):
                     leak.append(src(e.node))
+            leak += [src(n) for c, n in lf.sim.relem_uses]
             for L in lf.sim.launches:
-                ag.add(f"{q}: the values yielded by the pool's result iterator reach no output (arrival order cannot matter) [{wname(L)}]",
-                       not leak, L.node, leak)
+                harmless = L.ret == NONE or L.ordered
+                ag.add(f"{q}: arrival order of the results cannot reach an output (the tasks return nothing, or the values yielded by the "
+                       f"unordered result iterator are dropped) [{wname(L)}]", harmless or not leak, L.node, leak)
     ag.flush()
 
 
